@@ -1,0 +1,41 @@
+//go:build verif
+
+package pool
+
+// Verification hooks (build tag "verif"): read-only accessors and a health-state setter
+// used by the /verif correspondence harness. Not compiled into normal builds.
+
+// VerifRanked exposes rendezvousRanked over the node's current peer list.
+func (p *PeerPool) VerifRanked(subscriberID string) []string {
+	p.mu.RLock()
+	nodes := p.peerNodes
+	p.mu.RUnlock()
+	return append([]string(nil), rendezvousRanked(subscriberID, nodes)...)
+}
+
+// VerifHealthyOwner exposes getHealthyOwner.
+func (p *PeerPool) VerifHealthyOwner(subscriberID string) string {
+	return p.getHealthyOwner(subscriberID)
+}
+
+// VerifSetPeerHealth sets the recorded health of a peer as the health-check loop would.
+func (p *PeerPool) VerifSetPeerHealth(nodeID string, healthy bool) {
+	p.healthMu.Lock()
+	defer p.healthMu.Unlock()
+	h, ok := p.peerHealthMap[nodeID]
+	if !ok {
+		h = &peerHealth{}
+		p.peerHealthMap[nodeID] = h
+	}
+	h.healthy = healthy
+	if healthy {
+		h.consecutiveFailures = 0
+	}
+}
+
+// VerifPeerNodes returns a copy of the sorted node list.
+func (p *PeerPool) VerifPeerNodes() []string {
+	p.mu.RLock()
+	defer p.mu.RUnlock()
+	return append([]string(nil), p.peerNodes...)
+}
